@@ -28,26 +28,28 @@ type gNode struct {
 }
 
 type chainGen struct {
-	r         *core.Rand
-	c         cfg
-	b         *builder
-	nodes     map[int]*gNode
-	tip       int
-	nextB     int
-	nextT     int
-	ids       map[chainhash.Hash]int
-	cbs       []aTx // every coinbase made so far
-	ops       []string
-	reorgs    int
-	dups      int
-	rejs      int
-	chains    int // spends of outputs created in the same block
-	unsp      int
-	long      bool
-	seen      map[string]bool
-	delivered []int
-	byIns     map[string]aTx
-	dupTxs    int
+	r          *core.Rand
+	c          cfg
+	b          *builder
+	nodes      map[int]*gNode
+	tip        int
+	nextB      int
+	nextT      int
+	ids        map[chainhash.Hash]int
+	cbs        []aTx // every coinbase made so far
+	ops        []string
+	reorgs     int
+	dups       int
+	rejs       int
+	chains     int // spends of outputs created in the same block
+	unsp       int
+	long       bool
+	seen       map[string]bool
+	delivered  []int
+	byIns      map[string]aTx
+	modelAlive bool
+	restarts   int
+	dupTxs     int
 }
 
 var spendableScripts = [][]byte{{0x51}, {0x51}, {0x51}, {0x52}, {0x53}, {0x01, 0x51}, {0x02, 0xab, 0xcd}, {0x60}}
@@ -405,8 +407,9 @@ func (g *chainGen) extend(p *gNode) bool {
 	return true
 }
 
-func (g *chainGen) observe(dumpOK bool) {
+func (g *chainGen) observe() {
 	r := g.r
+	dumpOK := g.dumpOK()
 	switch r.Intn(6) {
 	case 0, 1:
 		g.ops = append(g.ops, "O")
@@ -434,6 +437,38 @@ func (g *chainGen) observe(dumpOK bool) {
 
 const hugeCache = 2 << 20
 
+// dumpOK: the Lean Model can name every flush decision so far (cache sizes 0 or 2 MiB only).
+func (g *chainGen) dumpOK() bool {
+	return g.modelAlive && (g.c.cache == 0 || g.c.cache == hugeCache)
+}
+
+// restart emits unclean shutdowns: possibly interrupted start-ups (Y) followed by one that
+// completes (X), with cache sizes that differ from the one used before.
+func (g *chainGen) restart() {
+	r := g.r
+	pick := func(known bool) uint64 {
+		switch x := r.Intn(5); {
+		case x < 2:
+			return 0
+		case x < 4 || known:
+			return hugeCache
+		}
+		return uint64(r.Range(200, 40000))
+	}
+	if g.modelAlive {
+		for n := r.Intn(3); n > 0; n-- {
+			g.c.cache = pick(true)
+			g.ops = append(g.ops, fmt.Sprintf("Y%d", g.c.cache))
+		}
+	}
+	g.c.cache = pick(false)
+	if g.c.cache != 0 && g.c.cache != hugeCache {
+		g.modelAlive = false
+	}
+	g.ops = append(g.ops, fmt.Sprintf("X%d", g.c.cache))
+	g.restarts++
+}
+
 // genChain makes one `chain` line. profile: 0 extend-only without flush ops, 1 mixed, 2 reorg heavy,
 // 3 re-creation heavy (duplicate coinbases, spends, flushes).
 func genChain(r *core.Rand, profile int, maxOps int, long bool) (string, string, bool) {
@@ -456,7 +491,8 @@ func genChain(r *core.Rand, profile int, maxOps int, long bool) (string, string,
 	g := &chainGen{r: r, c: c, b: newBuilder(c), nodes: map[int]*gNode{}, nextB: 1, nextT: 1,
 		ids: map[chainhash.Hash]int{}, long: long, seen: map[string]bool{}, byIns: map[string]aTx{}}
 	g.nodes[0] = &gNode{utxo: map[aOp]gEntry{}}
-	dumpOK := c.cache == 0 || c.cache == hugeCache
+	g.modelAlive = c.cache == 0 || c.cache == hugeCache
+	cfg0 := c
 	n := 3 + r.Intn(maxOps)
 	for step := 0; step < n; step++ {
 		x := r.Intn(100)
@@ -495,23 +531,36 @@ func genChain(r *core.Rand, profile int, maxOps int, long bool) (string, string,
 				g.deliver(blk, true)
 				from = g.nodes[blk.id]
 				if profile != 0 && r.Chance(1, 5) {
-					g.observe(dumpOK)
+					g.observe()
 				}
 			}
-		case x < 86:
+		case x < 82:
 			g.ops = append(g.ops, "F"+string("rpi"[r.Intn(3)]))
+		case x < 88 && profile != 0:
+			g.restart()
+			if r.Chance(1, 2) {
+				g.observe()
+			}
 		default:
-			g.observe(dumpOK)
+			g.observe()
 		}
 		if profile != 0 && r.Chance(1, 6) {
-			g.observe(dumpOK)
+			g.observe()
 		}
 	}
 	g.ops = append(g.ops, "O")
-	if dumpOK {
+	if g.dumpOK() {
 		g.ops = append(g.ops, "D")
 	}
+	if profile != 0 && r.Chance(1, 3) {
+		g.restart()
+		g.ops = append(g.ops, "O")
+		if g.dumpOK() {
+			g.ops = append(g.ops, "D")
+		}
+	}
 	g.ops = append(g.ops, "P", "O")
+	c = cfg0
 	class := "chain"
 	switch {
 	case g.dups > 0 && g.reorgs > 0:
@@ -533,6 +582,9 @@ func genChain(r *core.Rand, profile int, maxOps int, long bool) (string, string,
 	}
 	if c.bip34 {
 		class += "-bip34"
+	}
+	if g.restarts > 0 {
+		class += "-crash"
 	}
 	line := fmt.Sprintf("C03 chain %d:%d:%d %s", b2i(c.bip34), c.maturity, c.cache, strings.Join(g.ops, " "))
 	return line, class, g.nextB > 2
